@@ -44,12 +44,11 @@ def cmp : Handler := fun args => do
   .ok (listReply ((compareDocs keep i o).map strBytes))
 
 /-- `spec.c09.xml.contract tokens` (tokens of the REAL lexer) → which parts of the hypotheses of the C09 theorems
-fail for them: `lexok` (lexer contract), `wf` (Boolean token well-formedness), `hazard` (trigger K-C09-Xml-1) -/
+fail for them: `lexok` (lexer contract), `wf` (Boolean token well-formedness) -/
 def contract : Handler := fun args => do
   let ts ← Verif.Driver.C06.argToks args 0
   let r := (if lexOk .content ts then [] else ["lexok"]) ++
-    (if Spec.Xml.wfToks ts then [] else ["wf"]) ++
-    (if piEndHazard false ts then ["hazard"] else [])
+    (if Spec.Xml.wfToks ts then [] else ["wf"])
   .ok (listReply (r.map strBytes))
 
 def normAttrWs : XTok → XTok
